@@ -196,6 +196,13 @@ pub fn api(data: &[u8]) -> Result<(), String> {
             }
         }
     }
+    // sometimes place transitions exactly on / next to leap records (the two time scales meet there)
+    if !leaps.is_empty() && u.arbitrary().unwrap_or(false) {
+        let mut extra: Vec<Transition> = leaps.iter().take(3).map(|l: &LeapSecond| Transition::new(l.unix_leap_time().saturating_add(u.int_in_range(-1i64..=1).unwrap_or(0)), if types.is_empty() { 0 } else { u.int_in_range(0usize..=types.len() - 1).unwrap_or(0) })).collect();
+        trans.append(&mut extra);
+        trans.sort_by_key(|t| t.unix_leap_time());
+        trans.dedup_by_key(|t| t.unix_leap_time());
+    }
     let rule: Option<TransitionRule> = match u.int_in_range(0u8..=3).unwrap_or(0) {
         0 => None,
         1 => arb_ltt(&mut u).map(TransitionRule::Fixed),
